@@ -1622,7 +1622,7 @@ def semantic_validators(ctx: Ctx) -> Dict[str, Dict[str, object]]:
 def X3c(ctx: Ctx) -> RuleResult:
     r = RuleResult('X3c', 're-validation exposure: every copy-with-changes / construction in rewrite.py of a class with semantic validators (sanity, presence, hygiene) either leaves the fields those validators read untouched or is justified by a checked monotonicity fact')
     from .rules_rewrite import rewrite_eval, Shapes, canon, IH_FUNCS, _fname
-    from .terms import Attr, BoundMethod, Call, Comp, Const, New, Op, Sym, Term, walk, norm_guards, EnumMember, expand_outcomes
+    from .terms import Attr, BoundMethod, Call, Comp, Const, New, Op, Sym, Term, walk, norm_guards, EnumMember, expand_outcomes, expand_ites, eval_bool, Ite
     from .util import call_name, call_recv, outcome_terms
     sem = semantic_validators(ctx)
     if 'HplProperty' not in sem or 'HplQuantifier' not in sem:
@@ -1678,7 +1678,36 @@ def X3c(ctx: Ctx) -> RuleResult:
                 sh.read(a, True)
             terms = outcome_terms(o) + list((o.env or {}).values())
             comps = [x for t in terms for x in walk(t) if isinstance(x, Comp)]
+            base_sh = sh
+            known = {t: pol for t, pol in norm_guards(o.guards)}
+            leaves = []
             for t in terms:
+                if not any(isinstance(x, Ite) for x in walk(t)):
+                    leaves.append((t, None))
+                    continue
+                # a construction inside a conditional value (an inlined helper that chooses) happens under that condition
+                for gs, leaf in expand_ites(t, 64):
+                    chosen = {g: pol for g, pol in norm_guards(gs)}
+                    if any(known.get(g, pol) != pol for g, pol in chosen.items()) or any(eval_bool(g, chosen) not in (None, pol) for g, pol in known.items()):
+                        continue
+                    leaves.append((leaf, tuple(gs)))
+            shapes_of = {}
+            for t, extra in leaves:
+                if extra in shapes_of:
+                    sh = shapes_of[extra]
+                else:
+                    sh = shapes_of[extra] = Shapes()
+                    allg = tuple(o.guards) + (extra or ())
+                    facts = {g: pol for g, pol in norm_guards(allg)}
+                    for g, pol in allg:
+                        sh.read(g, pol)
+                    for a in o.asserts:
+                        # an assertion of the helper reads `not <its path> or <fact>`: under the chosen condition the fact holds
+                        if isinstance(a, Op) and a.op == 'or':
+                            open_ = [x for x in a.args if eval_bool(x, facts) is not False]
+                            if len(open_) == 1:
+                                a = open_[0]
+                        sh.read(a, True)
                 for x in walk(t):
                     site = None
                     if isinstance(x, Call) and call_name(x) == 'but' and x.kwargs and not x.args:
